@@ -568,6 +568,43 @@ pub fn run() {
         trans += t;
     }
     rep.set("limiter_states", states);
+    // quotas whose period is not a multiple of the burst size (the default per-IP quota, 9 per
+    // second, is one): a key with a full bucket may send its whole burst at one instant, the
+    // next datagram is refused, one token is back after ceil(period / burst), the whole burst after
+    // a full period
+    let mut uneven = 0u64;
+    // (periods of at least burst² ns: below that the integer-nanosecond arithmetic of the limiter
+    // leaves room for one extra token — see DESIGN.md, observations)
+    for (n, tau_ns) in [(3u64, 1_000_000_000u64), (9, 1_000_000_000), (7, 100_000_000), (3, 10), (6, 1_000_000_007), (9, 1_000)] {
+        let tau = Duration::from_nanos(tau_ns);
+        for start_ns in [0u64, 1, tau_ns / 2, 5 * tau_ns + 1] {
+            let mut lim = Limiter::<u8>::from_quota(v::quota(n, tau)).expect("quota");
+            let t0 = Duration::from_nanos(start_ns);
+            let mut admitted = 0;
+            for _ in 0..n + 2 {
+                if lim.allows(t0, &7u8, 1).is_ok() {
+                    admitted += 1;
+                }
+            }
+            uneven += 1;
+            let mut bad = None;
+            if admitted != n {
+                bad = Some((if admitted < n { "traffic within its quota is never refused" } else { "the number let through never exceeds burst + rate × window" }, if admitted < n { "limiter:false-refusal:uneven-quota" } else { "limiter:over-admission:uneven-quota" }, format!("quota {n} per {tau_ns} ns: a fresh key sending {} datagrams at one instant got {admitted} admitted", n + 2)));
+            } else {
+                // one token is back no later than ceil(tau / n) after the burst
+                let one = Duration::from_nanos(start_ns + tau_ns.div_ceil(n));
+                let again = lim.allows(one, &7u8, 1).is_ok();
+                let and_not_two = lim.allows(one, &7u8, 1).is_ok();
+                if !again || and_not_two {
+                    bad = Some((if !again { "traffic within its quota is never refused" } else { "the number let through never exceeds burst + rate × window" }, "limiter:replenish:uneven-quota", format!("quota {n} per {tau_ns} ns: after ceil(period/burst) one more datagram must pass and only one (first {again}, second {and_not_two})")));
+                }
+            }
+            if let Some((clause, key, detail)) = bad {
+                problems.push(Violation { clause: clause.into(), key: key.into(), detail, replay: json!({"engine":"filter","part":"uneven-quota","burst":n,"period_ns":tau_ns,"start_ns":start_ns}) });
+            }
+        }
+    }
+    rep.set("uneven_quota_bursts", uneven);
     let pdepth = if thorough { 9 } else { 8 };
     let mut paths = 0;
     for n in [1u64, 2, 3] {
